@@ -32,6 +32,13 @@ Theorem C28_join_delta_tickinv :
 Proof. exact static_pairs_tickinv. Qed.
 Print Assumptions C28_join_delta_tickinv.
 
+(* the generator fragment (limit / first at top level): scan::<'static> + flat_map *)
+Theorem C28_generator_tickinv :
+  forall init f xss,
+    concat (op_run LStatic GInit (run_items (gen_istep init f)) xss) = gen_list f init (concat xss).
+Proof. exact gen_tickinv. Qed.
+Print Assumptions C28_generator_tickinv.
+
 (* the executable predicate evaluated on the implementation's outputs is the conclusion *)
 Theorem C28_holds_b_correct :
   forall f bs impl,
